@@ -145,6 +145,11 @@ func judge(c *mutCase, stream []byte, r wres) verdict {
 	default:
 		return verdict{"c20/harness/outcome", "unknown outcome " + r.Outcome + ": " + r.Msg}
 	}
+	if c.Field < 0 && c.Class == "unmutated" {
+		// well-formed frames: allocation and extent are validated by the caller as
+		// properties of the harness; only a crash is a finding
+		return verdict{}
+	}
 	if b := allocBound(len(stream)); r.Alloc > b {
 		return verdict{fmt.Sprintf("c20/alloc/%s/%s/%s", c.API, kind, c.Class),
 			fmt.Sprintf("decoding %d supplied bytes allocated %d bytes (bound 1 MiB + 1024 x %d = %d); outcome %s %s", len(stream), r.Alloc, len(stream), b, r.Outcome, r.Msg)}
@@ -426,6 +431,9 @@ func enumerate(t *testing.T, onlyArrays bool) {
 		c := &a.j.c
 		if a.err != nil {
 			t.Fatalf("harness: %v", a.err)
+		}
+		if !evaluate(t, c, a.j.stream, a.r) {
+			return // a well-formed frame crashed the decoder: reported (known finding)
 		}
 		if a.r.Outcome != "decoded" {
 			t.Fatalf("harness: unmutated %s v%d %s frame (%s): outcome %s %s\n%s\nframe=%s", c.API, c.Version, c.Variant, c.Supply, a.r.Outcome, a.r.Msg, a.r.Stderr, hexHead(a.j.stream, 600))
